@@ -32,6 +32,16 @@ impl QueryBatchStream {
         }
     }
 
+    /// Public twin of `new` for the external verification harness.
+    #[cfg(feature = "verif-hooks")]
+    pub fn verif_from_parts(
+        schema: Arc<BatchSchema>,
+        receiver: BatchReceiver,
+        tasks: Vec<JoinHandle<()>>,
+    ) -> Self {
+        Self::new(schema, receiver, tasks)
+    }
+
     /// Returns the schema of the batches in this stream.
     pub fn schema(&self) -> Arc<BatchSchema> {
         Arc::clone(&self.schema)
